@@ -79,6 +79,10 @@ pub enum Call {
     Hex(u64),
     Area(i32),
     Nearest(f64, f64),
+    /// a5::core::hilbert::s_to_anchor(s, n, orientation)
+    Anchor(u64, usize, u64),
+    /// a5::core::hilbert::ij_to_s((i, j), n, orientation)
+    IjToS(f64, f64, usize, u64),
 }
 
 fn bits(p: &LonLat) -> String {
@@ -101,6 +105,8 @@ pub fn exec(c: &Call) -> String {
         Call::Res0 => format!("{:?}", a5::get_res0_cells()),
         Call::Hex(v) => format!("{:?}", a5::hex_to_u64(&a5::u64_to_hex(*v))),
         Call::Area(r) => format!("{:016x} {}", a5::cell_area(*r).to_bits(), a5::get_num_cells(*r)),
+        Call::Anchor(sv, n, o) => format!("{:?}", a5::core::hilbert::s_to_anchor(*sv, *n, crate::tables::ori_of(*o))),
+        Call::IjToS(i, j, n, o) => format!("{:?}", a5::core::hilbert::ij_to_s(a5::coordinate_systems::IJ::new(*i, *j), *n, crate::tables::ori_of(*o))),
         Call::Nearest(t, p) => format!(
             "{}",
             a5::core::origin::find_nearest_origin(a5::coordinate_systems::Spherical::new(
@@ -156,7 +162,7 @@ pub fn random_call(rng: &mut Rng) -> Call {
 
 pub fn search_c13(rng: &mut Rng, thorough: bool) -> SearchResult {
     let mut r = SearchResult::default();
-    r.rule = "random sequences of public calls (lookups, centres, boundaries, hierarchy, compaction, metadata): each result, rendered bit-exactly, is compared with the same call executed as the FIRST call of a fresh thread; then N threads run random sequences concurrently and every result is compared with the single-threaded reference. non-trivial = calls that touch the projection memo (lookup / centre / boundary)".into();
+    r.rule = "random sequences of public calls (lookups, centres, boundaries, hierarchy, compaction, metadata, curve functions; with correlated runs: seam-hugging points after a call on the neighbouring face, and the same curve position under different orientations / quintants / faces back to back): each result, rendered bit-exactly, is compared with the same call executed as the FIRST call of a fresh thread; then N threads run random sequences concurrently and every result is compared with the single-threaded reference. non-trivial = calls that touch the projection memo (lookup / centre / boundary)".into();
     let seqs = if thorough { 100 } else { 20 };
     let len = if thorough { 150 } else { 90 };
     for _ in 0..seqs {
@@ -182,6 +188,35 @@ pub fn search_c13(rng: &mut Rng, thorough: bool) -> SearchResult {
                         calls.push(Call::Lookup(ll.longitude(), ll.latitude(), rng.range_i(0, 4) as i32));
                     }
                 }
+            } else if rng.chance(1, 5) {
+                // the same curve position asked for under different orientations / in different quintants and faces,
+                // back to back: any state keyed by (position, depth) only shows here
+                let n = rng.range_i(1, 28) as usize;
+                let sv = crate::geocorr::gen_pos(n as u32, rng);
+                if rng.chance(1, 2) {
+                    let mut os: Vec<u64> = (0..6).collect();
+                    rng.shuffle(&mut os);
+                    for &o in os.iter().take(3) {
+                        calls.push(Call::Anchor(sv, n, o));
+                    }
+                    let side = (1u64 << n) as f64;
+                    let (i, j) = (rng.unit() * side * 0.5, rng.unit() * side * 0.5);
+                    for &o in os.iter().take(2) {
+                        calls.push(Call::IjToS(i, j, n, o));
+                    }
+                } else {
+                    let res = n as i32 + 1;
+                    for _ in 0..3 {
+                        let cell = a5::core::serialization::serialize(&a5::core::utils::A5Cell {
+                            origin_id: rng.below(12) as u8,
+                            segment: rng.below(5) as usize,
+                            s: sv,
+                            resolution: res,
+                        })
+                        .unwrap();
+                        calls.push(if rng.chance(1, 2) { Call::Centre(cell) } else { Call::Boundary(cell, Some(1), false) });
+                    }
+                }
             } else {
                 calls.push(random_call(rng));
             }
@@ -194,7 +229,7 @@ pub fn search_c13(rng: &mut Rng, thorough: bool) -> SearchResult {
             let c2 = c.clone();
             let fresh = thread::spawn(move || exec(&c2)).join().unwrap();
             r.evaluations += 1;
-            if matches!(c, Call::Lookup(..) | Call::Centre(..) | Call::Boundary(..) | Call::Nearest(..)) {
+            if matches!(c, Call::Lookup(..) | Call::Centre(..) | Call::Boundary(..) | Call::Nearest(..) | Call::Anchor(..) | Call::IjToS(..)) {
                 r.nontrivial += 1;
             }
             if &fresh != want {
